@@ -111,6 +111,7 @@ def _run(prop, args, base_seed, t0):
     env = repo.setup()
     if hasattr(mod, "prepare"):
         env = mod.prepare(env, args.tier, base_seed)
+    mod.worker_init(env)  # the parent re-executes violations (confirm, shrink) in pristine forked children
     n_runs = args.runs
     budget = args.budget
     if args.tier == "quick":
@@ -128,10 +129,31 @@ def _run(prop, args, base_seed, t0):
         stop_on_violation=not args.keep_going,
         first_index=args.first,
     )
+    findings = core.load_known_findings()
+    # witnesses of recorded findings are re-executed on every run: a repaired
+    # defect that returns is reported again (a "fixed" entry suppresses nothing)
+    n_witness = 0
+    for k, f in enumerate(findings):
+        wp = f.get("witness_replay")
+        if f.get("property") != prop or not wp or args.first != 0:
+            continue
+        wp = os.path.join(core.VERIF, wp)
+        if not os.path.exists(wp):
+            continue
+        with open(wp) as fh:
+            wdoc = json.load(fh)
+        res = core.run_pristine(mod, wdoc["scenario"])
+        res.update(i=-(k + 1), seed=wdoc.get("seed", 0), sc_digest=core.digest(wdoc["scenario"]), witness_of=f.get("id"))
+        if res.get("verdict") not in ("ok", "discard"):
+            res["scenario"] = wdoc["scenario"]
+        results.insert(0, res)
+        n_witness += 1
     if os.environ.get("NSLSIM_DUMP_DIGESTS"):
         with open(os.environ["NSLSIM_DUMP_DIGESTS"], "w") as f:
             json.dump({str(r["i"]): [r.get("verdict"), r.get("oracle"), r.get("digest")] for r in results}, f)
-    findings = core.load_known_findings()
+    if os.environ.get("NSLSIM_DUMP_RESULTS"):
+        with open(os.environ["NSLSIM_DUMP_RESULTS"], "w") as f:
+            json.dump([{k: r.get(k) for k in ("i", "seed", "verdict", "oracle", "finding_key", "detail")} for r in results], f)
     harness = [r for r in results if r.get("verdict") in ("harness-error", "timeout")]
     viols = [r for r in results if r.get("verdict") == "violation"]
     known_hits = {}
@@ -145,28 +167,38 @@ def _run(prop, args, base_seed, t0):
     exit_code = 0
     replay_paths = []
     if unknown:
-        first = unknown[0]
-        sc = first["scenario"]
-        shrunk, evals = sc, 0
-        if not args.no_shrink:
-            shrunk, evals = core.shrink(mod, sc, same_failure_as(first))
-        final = core.run_pristine(mod, shrunk)
-        if final.get("verdict") != "violation":
-            final, shrunk = first, sc
-        path = core.write_replay(
-            prop,
-            first["seed"],
-            shrunk,
-            final,
-            {"run_index": first["i"], "base_seed": base_seed, "shrink_evaluations": evals,
-             "original_scenario_digest": first.get("sc_digest")},
-        )
-        replay_paths.append(path)
-        print(f"  oracle={final.get('oracle')} detail={final.get('detail')}")
-        print(f"  seed={first['seed']} run_index={first['i']} shrink_evaluations={evals}")
-        if hasattr(mod, "describe"):
-            print(mod.describe(shrunk))
-        print(f"VIOLATION property={prop} replay={path}")
+        # one report per distinct failure class (oracle, finding key), at most 4
+        groups = {}
+        for r in unknown:
+            groups.setdefault((r.get("oracle"), r.get("finding_key")), []).append(r)
+        for (orc, fk), rs in list(groups.items())[:4]:
+            first = rs[0]
+            sc = first["scenario"]
+            shrunk, evals = sc, 0
+            if not args.no_shrink:
+                shrunk, evals = core.shrink(mod, sc, same_failure_as(first))
+            final = core.run_pristine(mod, shrunk)
+            if final.get("verdict") != "violation":
+                final, shrunk = first, sc
+            path = core.write_replay(
+                prop,
+                first["seed"],
+                shrunk,
+                final,
+                {"run_index": first["i"], "base_seed": base_seed, "shrink_evaluations": evals,
+                 "original_scenario_digest": first.get("sc_digest"), "runs_with_this_failure_class": len(rs)},
+            )
+            replay_paths.append(path)
+            print(f"  oracle={final.get('oracle')} finding_key={final.get('finding_key')} detail={final.get('detail')}")
+            print(f"  seed={first['seed']} run_index={first['i']} shrink_evaluations={evals} runs_in_class={len(rs)}")
+            if hasattr(mod, "describe"):
+                if shrunk.get("kind") == "sequence":
+                    print(f"  (fails only after {len(shrunk['scenarios']) - 1} earlier scenario(s) in the same process; "
+                          "the last scenario of the sequence is shown)")
+                    print(mod.describe(shrunk["scenarios"][-1]))
+                else:
+                    print(mod.describe(shrunk))
+            print(f"VIOLATION property={prop} replay={path}")
         exit_code = 1
     for kid, (kf, n) in sorted(known_hits.items()):
         print(f"KNOWN-FINDING: property={prop} {kf['what']} [{kid}; hit by {n} runs]")
@@ -209,6 +241,7 @@ def _run(prop, args, base_seed, t0):
             "workers": s.workers,
             "discarded_runs": discards,
             "known_finding_hits": {k: v[1] for k, v in known_hits.items()},
+            "finding_witnesses_reexecuted": n_witness,
             "components": mod.COMPONENTS,
             "simulated_time": "logical only (no code under test reads a clock): see counters",
         }
